@@ -588,7 +588,7 @@ impl Scenario for InterpDriver {
             real: &["bsv::Interpreter (from_script, from_transaction, next, run, state, script_index, script_bits, clone)", "bsv::Script::from_script_bits / from_bytes / to_bytes", "bsv::Transaction::sign for signature operands", "process fd 1 (real /dev/full, real pipes)"],
             stub: &["reference trace = single-stepping a fresh Interpreter over the same program with a healthy stdout"],
             assumptions: &["programs whose next step would allocate more than ~1 MiB per operand (huge LSHIFT of a non-zero value, NUM2BIN to > 1 MiB, CAT/MUL of > 1 MiB operands) are dropped by the reference pass: C16 does not bound memory", "a worker abort caused by allocator exhaustion is recorded as outcome `resource`, not a violation"],
-            required_probes: &["ref_finished", "ref_err", "run_after_next", "next_after_none", "next_after_err", "stdout_fault_during_run", "fork_applied", "checksig_reached", "multisig_reached"],
+            required_probes: &["ref_finished", "ref_err", "run_after_next", "next_after_none", "next_after_err", "stdout_fault_during_run", "fork_applied", "checksig_reached", "multisig_reached", "restart_applied"],
             quick_runs: 110_000,
             thorough_runs: 4000000,
             rlimit_as: 6 << 30,
@@ -712,10 +712,11 @@ impl Scenario for InterpDriver {
         let mut events = vec![json!({"op": "load", "program": prog, "via_bytes": via_bytes, "tx": tx})];
         let n_sched = rng.range(1, 10);
         let stdout_on = rng.chance(1, 2);
+        let restart_on = rng.chance(1, 3);
         let mut n_itp = 1u64;
         for _ in 0..n_sched {
             let i = rng.below(n_itp);
-            let ev = match rng.weighted(&[25, 20, 20, 8, 10, if stdout_on { 14 } else { 0 }, if stdout_on { 5 } else { 0 }]) {
+            let ev = match rng.weighted(&[25, 20, 20, 8, 10, if stdout_on { 14 } else { 0 }, if stdout_on { 5 } else { 0 }, if restart_on { 8 } else { 0 }]) {
                 0 => json!({"op": "next", "itp": i}),
                 1 => json!({"op": "next_n", "itp": i, "n": rng.range(1, 30)}),
                 2 => json!({"op": "run", "itp": i}),
@@ -729,6 +730,7 @@ impl Scenario for InterpDriver {
                     }
                 }
                 5 => json!({"op": "stdout_fault", "kind": *rng.pick(&["enospc", "epipe", "eagain", "ebadf"]), "n": *rng.pick(&[0u64, 1, 16, 31, 32, 100, 1000])}),
+                7 => json!({"op": "restart", "itp": i}),
                 _ => json!({"op": "stdout_heal"}),
             };
             events.push(ev);
@@ -1079,6 +1081,54 @@ impl InterpDriver {
                         }
                         Err(p) => {
                             ctx.violate("panic", format!("panic@{}#clone", site_file(&p.site)), format!("Interpreter::clone panicked at {}: {}", p.site, p.msg));
+                            bail!();
+                        }
+                    }
+                }
+                "restart" => {
+                    // the driver crashes and comes back with what it had made durable: the interpreter's JSON form. Applied only
+                    // when the round trip is faithful (what JSON loses is C18's subject): same bits, index, stacks, and the
+                    // restored object serialises to the same text. From there on it must behave like the one it replaces.
+                    let i = jusize(ev, "itp");
+                    if i >= itps.len() || total_bits > 4000 {
+                        ctx.skip();
+                        continue;
+                    }
+                    ctx.event(seq, "restart", "json");
+                    let js = match guard(|| serde_json::to_string(&itps[i].itp)) {
+                        Ok(Ok(j)) => j,
+                        Ok(Err(_)) => {
+                            ctx.probe("restart_serialise_refused");
+                            continue;
+                        }
+                        Err(p) => {
+                            ctx.violate("panic", format!("panic@{}#serialise interpreter", site_file(&p.site)), format!("serde_json::to_string(&Interpreter) panicked at {}: {}", p.site, p.msg));
+                            bail!();
+                        }
+                    };
+                    match guard(|| serde_json::from_str::<Interpreter>(&js)) {
+                        Ok(Ok(r)) => {
+                            let o = &itps[i].itp;
+                            let (so, sr) = (o.state(), r.state());
+                            let faithful = r.script_bits() == o.script_bits()
+                                && r.script_index() == o.script_index()
+                                && so.stack == sr.stack
+                                && so.alt_stack == sr.alt_stack
+                                && so.codeseparator_offset == sr.codeseparator_offset
+                                && so.executed_opcodes == sr.executed_opcodes
+                                && serde_json::to_string(&r).map(|j| j == js).unwrap_or(false);
+                            if faithful {
+                                ctx.fault("restart-json");
+                                ctx.probe("restart_applied");
+                                ctx.nontrivial = true;
+                                itps[i].itp = r;
+                            } else {
+                                ctx.probe("restart_not_faithful");
+                            }
+                        }
+                        Ok(Err(_)) => ctx.probe("restart_not_faithful"),
+                        Err(p) => {
+                            ctx.violate("panic", format!("panic@{}#deserialise interpreter", site_file(&p.site)), format!("serde_json::from_str::<Interpreter> of its own output panicked at {}: {}", p.site, p.msg));
                             bail!();
                         }
                     }
